@@ -110,7 +110,7 @@ def _fn_filter(mapping, default=None):
 RULES["R-ORDER"]["props_filter"] = _fn_filter([("P1-", ["C05"]), ("splice::Splice", ["C06", "C03", "C04"]), ("P2-", ["C06", "C03"]), ("P3-", ["C03", "C06"]), ("P4-", ["C03", "C06"]), ("P5-", ["C08", "C06"])])
 RULES["R-ARITH"]["props_filter"] = _fn_filter([("into_range", ["C02"]), ("splice", ["C02", "C11"]), ("stack_n", ["C11"]), ("HeapMem", ["C10", "C18"]),
                                                 ("mem::MemResizable", ["C10", "C18"]), ("reserve", ["C10"])], default=["C10", "C18"])
-RULES["R-BOUNDS"]["props_filter"] = _fn_filter([("ctor:Drain", ["C02", "C05"]), ("ctor:Splice", ["C02", "C05"]), ("unchecked-access", ["C13", "C01", "C05"]),
+RULES["R-BOUNDS"]["props_filter"] = _fn_filter([("ctor:Drain", ["C02", "C05"]), ("ctor:Splice", ["C02", "C05"]), ("unchecked-access", ["C13", "C01", "C05"]), ("element-handle", ["C13", "C01", "C05"]),
                                                  ("into_range", ["C02"])], default=["C01", "C05"])
 RULES["R-UNITS"]["props_filter"] = _fn_filter([("spare_bytes_mut", ["C12", "C05"]), ("as_bytes", ["C12", "C05"]), ("AnyVecTyped", ["C12", "C05"]), ("splice", ["C02", "C11", "C05"]),
                                                 ("drain", ["C02", "C05"]), ("heap", ["C18"]), ("stride-type", ["C03", "C05"])], default=["C01", "C05"])
@@ -129,7 +129,7 @@ PROPERTIES = {
     "C03": {"rules": ["R-FORGET", "R-PROVENANCE", "R-ORDER", "R-NONINTERFERENCE", "R-FORMULA", "R-LENLOWER"],
             "not_decided": "a global count of live values over histories (ownership discipline is decided, not identity accounting)"},
     "C04": {"rules": ["R-TYPEGUARD", "R-PROVENANCE", "R-ORDER"], "not_decided": "which downcast succeeds at run time; decided: every unchecked reinterpretation sits behind the right equality test"},
-    "C05": {"rules": ["R-ORDER", "R-BOUNDS", "R-UNITS", "R-FORMULA", "R-BOUNDLOOP"],
+    "C05": {"rules": ["R-ORDER", "R-BOUNDS", "R-UNITS", "R-FORMULA", "R-BOUNDLOOP", "R-NONINTERFERENCE"],
             "not_decided": "'no byte is read before it was written' in general, guard zones / poison (run-time notions)"},
     "C06": {"rules": ["R-ORDER", "R-BOUNDLOOP", "R-LENLOWER"], "not_decided": "that later operations stay fully usable beyond LEN<=CAP and visible-range integrity"},
     "C07": {"rules": ["R-LENLOWER", "R-FORMULA"], "not_decided": ""},
@@ -140,7 +140,7 @@ PROPERTIES = {
     "C11": {"rules": ["R-EXPANDGUARD", "R-FORMULA", "R-ARITH", "R-ALLOCCONFINED", "R-STACKCAP", "R-LENLOWER"],
             "not_decided": "behavioural equality with the heap backend beyond 'same generic code, backend reached only through Mem'"},
     "C12": {"rules": ["R-FORMULA", "R-UNITS", "R-ALIGN", "R-HEAP"], "not_decided": ""},
-    "C13": {"rules": ["R-BOUNDS", "R-FORMULA", "R-TYPEGUARD", "R-PROVENANCE"], "not_decided": "value equality after mutation"},
+    "C13": {"rules": ["R-BOUNDS", "R-FORMULA", "R-TYPEGUARD", "R-PROVENANCE", "R-ITER"], "not_decided": "value equality after mutation"},
     "C14": {"rules": ["R-ITER", "R-FORMULA"], "not_decided": "typed iterators are core::slice iterators over the R-FORMULA slice (std adapters trusted)"},
     "C15": {"rules": [], "probes": ["P15"], "exhaustive": True, "not_decided": ""},
     "C16": {"rules": ["R-SIG"], "probes": ["P16"], "exhaustive": True, "not_decided": ""},
